@@ -73,7 +73,7 @@ def plan(tier: str, seed: int) -> dict:
              "params": {"min_ops": 10, "max_ops": 320, "max_stmts": 10, "max_refs": 6}},
             {"name": "corpus", "n_cases": 640, "cases_per_job": 8,
              "params": {"mode": "corpus", "min_ops": 8, "max_ops": 40, "pool": 8,
-                        "subset": [seed, 120], "ref_cache": cache}}]}
+                        "subset": [seed, 160], "ref_cache": cache}}]}
     return {"budget_s": 1500, "min_budget": 200, "scratch": cache, "phases": [
         {"name": "generated", "n_cases": 20000, "cases_per_job": 1,
          "params": {"min_ops": 10, "max_ops": 700, "max_stmts": 16, "max_refs": 10}},
@@ -199,10 +199,6 @@ def corpus_plan(ch: Choices, params: dict) -> tuple[list[str], list[int], int]:
     if not items:
         raise RuntimeError(f"empty corpus: {_ITEMS['skipped']}")
     n_pool = params.get("pool", 10)
-    sub = params.get("subset")
-    if sub:   # quick tier: a seeded subset, so that references are shared between histories
-        import random
-        items = sorted(random.Random(sub[0]).sample(items, min(sub[1], len(items))))
     poolsel = [items[ch.draw(len(items), "item")] for _ in range(n_pool)]
     # neighbours: items of the same test module share module-level definitions and the
     # same std-library features
@@ -222,6 +218,7 @@ def corpus_plan(ch: Choices, params: dict) -> tuple[list[str], list[int], int]:
 
 
 _REFS: dict[str, dict] = {}
+_FIRST: dict[str, dict] = {}
 _REF_STATS = {"reference_forks": 0, "reference_cache_hits": 0}
 
 
@@ -264,6 +261,15 @@ def run_job(job: dict) -> dict:
         for c in plans:
             poolsel, history, _ = corpus_plan(c, params)
             need += [poolsel[pi] for pi in history]
+        sub = params.get("subset")
+        if sub:
+            # quick tier: fresh-session references only for a seeded subset of the corpus
+            # (shared between the histories of the run); the other items are compared
+            # with their first occurrence in the session (self-consistency)
+            import random
+            fresh = set(random.Random(sub[0]).sample(_ITEMS["items"],
+                                                     min(sub[1], len(_ITEMS["items"]))))
+            need = [it for it in need if it in fresh]
         ensure_refs(need, params)
     return std_run_job(job, run_case, None)
 
@@ -275,18 +281,23 @@ def run_case_corpus(ch: Choices, params: dict) -> dict:
     log = EventLog()
     viol: list[dict] = []
     probes = {"corpus_items_run": 0, "corpus_api_calls_compared": 0, "corpus_failing_api_calls": 0,
-              "corpus_immediate_repeats": 0, "reference_forks": 0, "reference_cache_hits": 0}
+              "corpus_immediate_repeats": 0, "reference_forks": 0, "reference_cache_hits": 0,
+              "items_vs_fresh_reference": 0, "items_vs_first_occurrence": 0}
     poolsel, history, probes["corpus_immediate_repeats"] = corpus_plan(ch, params)
     for k in _REF_STATS:        # forks / cache hits since the last case of this child
         probes[k], _REF_STATS[k] = _REF_STATS[k], 0
-    refs = {pi: _REFS[poolsel[pi]] for pi in set(history)}
     rendered = []
     steps = 0
     for pi in history:
         steps += 1
         it = poolsel[pi]
         got = corpus.run_item(it, canon_pkg)
-        ref = refs[pi]
+        if it in _REFS:
+            ref = _REFS[it]
+            probes["items_vs_fresh_reference"] += 1
+        else:
+            ref = _FIRST.setdefault(it, got)     # first occurrence in this session
+            probes["items_vs_first_occurrence"] += 1
         probes["corpus_items_run"] += 1
         probes["corpus_api_calls_compared"] += len(got["obs"])
         probes["corpus_failing_api_calls"] += sum(1 for o in got["obs"] if " -> ok:" not in o)
